@@ -13,8 +13,12 @@
   Claimed level: PARTIAL.
     * protocol half (termination, independence of the schedule): proved for the model, for every
       action list of the visitor and every schedule;
-    * semantic half: proved for the core subset stated at `compile_correct…` below; what is not
-      proved keeps its full statement as a `def … : Prop`.
+    * semantic half: proved for the modelled subset (expressions, `=`, `++`/`--`, `IOWrite`,
+      `if`/`else`, conditional and endless `for`, block-local declarations with the compiler's cell
+      release discipline): `compile_correct : compile_correct_full`, for every program that obeys
+      Go's scoping rule, every register width ≥ 1, environment and fuel.  PARTIAL with respect to the
+      property: functions, goroutines, channels, `select`/`switch`, `break`/`continue`, `:=`, `for`
+      init/post are outside the model; `je` has the meaning the compiler relies on.
 -/
 import BMV.Proofs.BondgoProto
 import BMV.Proofs.Bondgo
@@ -155,8 +159,8 @@ theorem alloc_inv_decls (decls : List Bool) : LocsInj (locs decls) := locs_inj d
     register width, every input environment and every fuel, the compiled program run from the
     reset state for exactly its own length has left the program and has written exactly the
     outputs of `goEval`, which has returned.
-    PARTIAL with respect to `compile_correct_full`: `if` and `for` are not covered by a theorem
-    (they are covered by the correspondence check only). -/
+    (Straight-line special case with an exact step count; structured programs: see
+    `compile_correct_structured` / `compile_correct_wf` below.) -/
 theorem compile_correct_partial (env : Nat → Nat → Nat) (w fuel : Nat) (p : Prog) (code : List Instr)
     (hc : compile p = some code) (hs : straight p.body = true) :
     runCode env w code code.length = ((goEval env w fuel p).1, true) ∧ (goEval env w fuel p).2 = true :=
@@ -182,7 +186,7 @@ example : compile demo = some
 
 example : (runCode (fun _ _ => 0) 8 ((compile demo).getD []) 12) = ([(0, 5)], true) := by decide
 
-/-! block-local variables (modelled, executed and compared on every run, not covered by a theorem):
+/-! block-local variables:
     in `if a == 3 { var b; var c; … } else { var d; … }` the cells of `b`, `c` are released before the
     `else` body is compiled, so `d` re-uses cell 1 — and the RAM the program needs is the maximum
     over the whole program (3 cells), not the last cell handed out -/
@@ -199,15 +203,125 @@ example : allLocs demoBlocks = [.mem 0, .mem 1, .mem 2, .mem 1] ∧
     ((compile demoBlocks).map List.length) = some 36 ∧
     runCode (fun _ _ => 0) 8 ((compile demoBlocks).getD []) 40 = ([(0, 8), (0, 3)], true) := by decide
 
-/-- The full statement of semantic preservation for the modelled subset: for every program the
-    model compiler accepts, every width, environment and loop fuel, the compiled program reaches —
-    after some number of instructions — a state whose output list is exactly what `goEval`
-    produced within that fuel; and when `main` returned, the machine has run off the end of the
-    program. -/
+/-! ### structured programs: `if`/`else`, `for`, block-local variables -/
+
+/-- The compositional simulation lemma.  For every statement form, every loop fuel and every
+    placement: the code of a statement compiled at address `base` and placed at offset `base` of a
+    program, started at its first instruction in a machine state that agrees with the source state
+    on the variables in scope (`AgreeL`), reaches — when the source statement finishes within the
+    fuel — the instruction after its last one, in a state that agrees with the source's final state
+    on the variables then in scope (`live ++ topDecls st`: block-local variables leave the scope with
+    their block), with equal output lists.  Hypotheses: register width ≥ 1, the statement passes the
+    scoping/placement check `wfS`, the registers of register variables are busy (`VarRegsIn`), the
+    variables in scope live in distinct places (`LiveInj`).  `je` has the meaning the compiler
+    relies on (`execInstr`). -/
+theorem stmt_simulation (env : Nat → Nat → Nat) (w : Nat) (hw : 0 < w) (ls : List Loc) (fuel : Nat) (st : Stmt)
+    (live : List Nat) (base : Nat) (busy : List Nat) (c : List Instr) (busy' : List Nat)
+    (hc : compileS ls st base busy = some (c, busy')) (hwf : wfS ls st live = true)
+    (hvr : VarRegsIn ls busy) (hinj : LiveInj ls live)
+    (pre post : List Instr) (cfg : Cfg) (s : Src) (hb : base = pre.length) (hpc : cfg.pc = pre.length)
+    (hag : AgreeL ls live cfg s) (ho : cfg.outs = s.outs) (hdone : (exec env w fuel st s).2 = true) :
+    ∃ cfg', Reaches env w (pre ++ c ++ post) cfg cfg' ∧ cfg'.pc = pre.length + c.length ∧
+      AgreeL ls (live ++ topDecls st) cfg' (exec env w fuel st s).1 ∧
+      cfg'.outs = (exec env w fuel st s).1.outs :=
+  stmtOK_all env w hw ls fuel st live base busy c busy' hc hwf hvr hinj pre post cfg s hb hpc hag ho hdone
+
+/-- the same when the fuel runs out inside the statement (a loop that has not finished): the
+    machine reaches a state that has written exactly the outputs the source wrote so far -/
+theorem stmt_simulation_timeout (env : Nat → Nat → Nat) (w : Nat) (hw : 0 < w) (ls : List Loc) (fuel : Nat) (st : Stmt)
+    (live : List Nat) (base : Nat) (busy : List Nat) (c : List Instr) (busy' : List Nat)
+    (hc : compileS ls st base busy = some (c, busy')) (hwf : wfS ls st live = true)
+    (hvr : VarRegsIn ls busy) (hinj : LiveInj ls live)
+    (pre post : List Instr) (cfg : Cfg) (s : Src) (hb : base = pre.length) (hpc : cfg.pc = pre.length)
+    (hag : AgreeL ls live cfg s) (ho : cfg.outs = s.outs) (hto : (exec env w fuel st s).2 = false) :
+    ∃ cfg', Reaches env w (pre ++ c ++ post) cfg cfg' ∧ cfg'.outs = (exec env w fuel st s).1.outs :=
+  stmtTO_all env w hw ls fuel st live base busy c busy' hc hwf hvr hinj pre post cfg s hb hpc hag ho hto
+
+/-- `compile_correct` for structured programs, termination form: if `main` returns within `fuel`
+    loop iterations, the compiled program — from the reset state — reaches a state past its last
+    instruction having written exactly `goEval`'s outputs. -/
+theorem compile_correct_structured (env : Nat → Nat → Nat) (w : Nat) (hw : 0 < w) (fuel : Nat) (p : Prog)
+    (code : List Instr) (hc : compile p = some code) (hwf : wfProg p = true)
+    (hdone : (goEval env w fuel p).2 = true) :
+    ∃ n, runCode env w code n = ((goEval env w fuel p).1, true) :=
+  compile_structured env w hw fuel p code hc hwf hdone
+
+/-- `compile_correct` for structured programs, every fuel (terminating or not): for every fuel there
+    is a number of instructions after which the compiled program has written exactly what `goEval`
+    wrote within that fuel; when `main` returned the machine has left the program.  (Output lists
+    only grow on both sides, so this identifies the two output streams prefix by prefix.) -/
+theorem compile_correct_wf (env : Nat → Nat → Nat) (w : Nat) (hw : 0 < w) (fuel : Nat) (p : Prog)
+    (code : List Instr) (hc : compile p = some code) (hwf : wfProg p = true) :
+    ∃ n, (runCode env w code n).1 = (goEval env w fuel p).1 ∧
+         ((goEval env w fuel p).2 = true → (runCode env w code n).2 = true) :=
+  compile_prefix env w hw fuel p code hc hwf
+
+/-- allocation facts used by the simulation: registers busy before a statement stay busy (so the
+    registers of register variables are never handed out), and a well-placed statement keeps the
+    variables in scope in pairwise distinct places -/
+theorem alloc_inv_stmt (ls : List Loc) (st : Stmt) (base : Nat) (busy : List Nat) (c : List Instr)
+    (busy' : List Nat) (h : compileS ls st base busy = some (c, busy')) (live : List Nat)
+    (hwf : wfS ls st live = true) (hinj : LiveInj ls live) :
+    (∀ x ∈ busy, x ∈ busy') ∧ LiveInj ls (live ++ topDecls st) :=
+  ⟨compileS_mono ls st base busy c busy' h, wfS_liveInj ls st live hwf hinj⟩
+
+/-- What a machine whose `je` does nothing (procbuilder's `je` today, known finding C12-je-stub;
+    modelled as the oracle does: `je` at address l replaced by `j (l+1)`) does with the tail of a
+    compiled comparison: the result register is 0 whatever the operands hold, i.e. every compiled
+    `==` is false and every `if` takes its else path, every conditional `for` is skipped. -/
+theorem je_noop_comparison_false (env : Nat → Nat → Nat) (w : Nat) (pre post : List Instr) (rc l : Nat) (cfg : Cfg)
+    (hpc : cfg.pc = pre.length) (hl : l = pre.length) :
+    ∃ cfg', Reaches env w (pre ++ [Instr.j (l + 1), Instr.rset rc 0, Instr.j (l + 4), Instr.rset rc 1] ++ post) cfg cfg' ∧
+      cfg'.pc = l + 4 ∧ cfg'.regs rc = 0 ∧ cfg'.mem = cfg.mem ∧ cfg'.outs = cfg.outs ∧
+      (∀ x, x ≠ rc → cfg'.regs x = cfg.regs x) :=
+  cond_tail_je_noop env w pre post rc l cfg hpc hl
+
+/-! non-vacuity of the structured theorems: the block demo above and a program with a conditional
+    loop pass `wfProg`, compile, and the theorems apply to them -/
+def demoLoop : Prog :=
+  { decls := [true, false],       -- reg_v0, v1
+    body := .seq (.loop (some (.eq (.var 1) (.lit 0)))
+        (.seq (.decl 2) (.seq (.assign 2 (.add (.mul (.var 0) (.lit 3)) (.lit 1))) (.seq (.assign 0 (.var 2))
+          (.seq (.ifThen (.eq (.var 0) (.lit 40)) (.seq (.assign 1 (.lit 1)) .skip))
+            (.seq (.iowrite 0 (.var 0)) .skip))))))
+      .skip }
+
+example : wfProg demoBlocks = true ∧ wfProg demoLoop = true ∧ scopedProg demoBlocks = true ∧
+    scopedProg demoLoop = true ∧ (compile demoLoop).isSome = true := by decide
+
+example (env : Nat → Nat → Nat) (fuel : Nat) :
+    ∃ n, (runCode env 8 ((compile demoLoop).getD []) n).1 = (goEval env 8 fuel demoLoop).1 := by
+  have hc : compile demoLoop = some ((compile demoLoop).getD []) := by decide
+  obtain ⟨n, h, _⟩ := compile_correct_wf env 8 (by decide) fuel demoLoop _ hc (by decide)
+  exact ⟨n, h⟩
+
+/-- the machine really runs the loop of `demoLoop`: 1, 4, 13, 40 -/
+example : runCode (fun _ _ => 0) 8 ((compile demoLoop).getD []) 200 = ([(0, 1), (0, 4), (0, 13), (0, 40)], true) := by
+  decide
+
+/-- The full statement of semantic preservation for the modelled subset: for every program that
+    obeys Go's scoping rule (`scopedProg`: on unique variable indices, block-local variables numbered
+    in textual order) and that the model compiler accepts, every register width ≥ 1, environment and
+    loop fuel, the compiled program reaches — after some number of instructions — a state whose
+    output list is exactly what `goEval` produced within that fuel; and when `main` returned, the
+    machine has run off the end of the program.
+    (Width 0 is excluded: there `rset r 1` stores 0 and the statement is false.) -/
 def compile_correct_full : Prop :=
   ∀ (env : Nat → Nat → Nat) (w fuel : Nat) (p : Prog) (code : List Instr),
-    compile p = some code →
+    0 < w → scopedProg p = true → compile p = some code →
     ∃ n, (runCode env w code n).1 = (goEval env w fuel p).1 ∧
          ((goEval env w fuel p).2 = true → (runCode env w code n).2 = true)
+
+/-- `alloc_inv`, memory cells: soundness of the cell release discipline of `blockLocs` (the
+    variables of a `then` body are released before the `else` body is compiled, nothing else is
+    released): in every well-scoped program a new block-local variable never gets the cell of a
+    variable that is still in scope, all reads and writes are in scope — i.e. the decidable check
+    `wfProg` that the simulation needs holds for every program that obeys Go's scoping rule. -/
+theorem alloc_inv_placement (p : Prog) (h : scopedProg p = true) : wfProg p = true :=
+  placement_sound p h
+
+/-- **`compile_correct`**: the full statement holds for the modelled subset. -/
+theorem compile_correct : compile_correct_full :=
+  fun env w fuel p code hw hs hc => compile_correct_wf env w hw fuel p code hc (alloc_inv_placement p hs)
 
 end BMV.Props.C12
